@@ -383,6 +383,12 @@ def thompson_sequences(summ):
         if nm == "_process_to_enfa_son" and len(ev.args) >= 3:
             a, b = node_of(ev.args[0]), node_of(ev.args[1])
             k = ev.args[2].const if ev.args[2].has_const() else None
+            if k is None and a is not None and b is not None and ev.args[2].only("int") and \
+                    any(isinstance(d, tuple) and len(d) == 2 and d[0] == "self" and d[1][:1] == ("sons",) for d in ev.args[2].deps):
+                # `for k in range(len(self.sons))`: one such branch for every son (an operator node has two)
+                edges.append((a, b, 0))
+                edges.append((a, b, 1))
+                continue
             if a is None or b is None or k is None:
                 return None, "(a son is processed between states, or with an index, the analysis cannot name)"
             edges.append((a, b, k))
